@@ -111,7 +111,7 @@ static inline void vec_u8__push_back(vec_u8 *v, unsigned char x)
 static inline unsigned char *vec_u8__op_index(vec_u8 *v, size_t i)
 { __CPROVER_assert(i < v->size, "vector index in range"); vec_u8__cell = nondet_uchar(); return &vec_u8__cell; }
 static inline void vec_u8__ctor_0(vec_u8 *v)
-{ v->data = (unsigned char *)__verif_new_array(1, VEC_LOCAL_CAP); v->size = 0; v->cap = VEC_LOCAL_CAP; }
+{ v->data = 0; v->size = 0; v->cap = VEC_LOCAL_CAP; }   /* no data object: contents are never stored */
 #else
 VEC_DECL(vec_u8, unsigned char)
 #endif
